@@ -33,7 +33,10 @@ EXPLANATION = (
     "record; no recording action inside Combine; (D7) one module-level PARSER, parse() and evaluator() go "
     "through MathParser.parse, nothing else fills the cache.")
 NOT_DECIDED = ("pyparsing's engine (that actions fire exactly on matches, packrat off); equality of evaluated values "
-               "across histories beyond 'same cached, never mutated object'.")
+               "across histories beyond 'same cached, never mutated object'; mutation of a usage set inside callees the "
+               "index cannot resolve (external libraries, author callables) -- sets handed to resolved package functions "
+               "are followed; D6 is a sufficient condition: overlaps other than function/variable and suffix/name "
+               "confusion are reported as undecided, not as violations.")
 ASSUMPTIONS = ["pyparsing fires a parse action once per successful match of its element, also inside attempts that are "
                "later abandoned; packrat memoisation is not enabled"]
 
@@ -158,6 +161,9 @@ def d1_record(ctx, idx, st):
         st['g'] = g
         atom, alts, elems = recording_elements(g, idx)
         st['atom'], st['alts'], st['elems'] = atom, alts, elems
+        ctx.extra['grammar'] = {'terms': len(g.nodes()), 'FIRST(atom)': G.show_chars(g.first(atom)),
+                                'FOLLOW(variable)': G.show_chars(g.follow(elems['variable'])),
+                                'recording_elements': {k: t.describe(1) for k, t in elems.items()}}
         hand, rp, init, ctor = handoff(idx)
         st['handoff'] = hand
         fields = {}
@@ -260,14 +266,14 @@ def d2_reset(ctx, idx, st):
                         '(successful or not) stay in the scratch sets and are reported for the next formula', rp.loc)
             return
         through = [n for c in resets for n in lib.cfg_nodes_for(cfg, c)]
-        for exits, what in (('raise', 'exceptional'), ('return', 'normal')):
+        for exits, what in (('raise', 'an exceptional'), ('return', 'a normal')):
             ok = cfg.must_pass(starts, through, exits=exits, after=True)
             detail = ''
             if not ok:
                 path = cfg.witness_path(starts, through, cfg.exits(exits), after=True)
                 detail = ' (e.g. via %s)' % ' -> '.join(repr(n) for n in (path or [])[:4])
-            r.check(ok, 'raw_parse: reset on %s exit' % what, 'every path from parseString to a %s exit passes reset_storage' % what,
-                    'a %s exit of raw_parse is reachable from the parseString call without passing reset_storage%s: names recorded '
+            r.check(ok, 'raw_parse: reset on %s exit' % what.split()[-1], 'every path from parseString to %s exit passes reset_storage' % what,
+                    '%s exit of raw_parse is reachable from the parseString call without passing reset_storage%s: names recorded '
                     'by a %s parse are reported for the next formula parsed' % (what, detail, 'failed' if exits == 'raise' else 'previous'),
                     lib.loc(rp, resets[0]))
         for t in lib.stmts_in(rp.node, ast.Try):
@@ -716,7 +722,7 @@ def d6_determinism(ctx, idx, st):
             if not common:
                 r.ok(construct, 'FIRST(body) = %s, disjoint from FOLLOW = %s' % (G.show_chars(fb), G.show_chars(fo)), gloc(g, t))
                 continue
-            if body is suf or suf in g.nodes(body) and t.kind == 'opt' and common & (g.first(var) | g.first(fun)):
+            if (body is suf or suf in g.nodes(body)) and t.kind == 'opt' and common & (g.first(var) | g.first(fun)):
                 r.violation(construct, 'a number may be followed directly by %s, which is also how a suffix starts: `2x` can be read '
                             'as 2 with suffix x or as 2 followed by the name x, so suffixes and variables/functions are confused '
                             'in the reported usage' % G.show_chars(common & (g.first(var) | g.first(fun))), gloc(g, t),
@@ -817,6 +823,40 @@ def _is_parser(idx, fi, recv):
     if isinstance(recv, ast.Name) and fi.cls is not None and fi.cls.qualname == MP and fi.params and recv.id == fi.params[0]:
         return True
     return False
+
+
+# ------------------------------------------------------------------------- thorough tier
+def thorough(ctx):
+    """Cross-check of D2 by bounded path enumeration (independent of the reachability formulation), and of D6 by running
+    the extracted grammar as a recogniser on strings whose function attempt is abandoned after recording."""
+    idx = ctx.index
+    r = ctx.rule('T.PATHS', 'every enumerated path of raw_parse from the parseString call to an exit contains reset_storage', floor=2)
+    with r:
+        rp = idx.func(MP + '.raw_parse')
+        cfg = cfg_of(rp.node)
+        pc = lib.calls_named(rp.node, ('parseString', 'parse_string'))[0]
+        resets = lib.calls_named(rp.node, 'reset_storage')
+        through = {n for c in resets for n in lib.cfg_nodes_for(cfg, c)}
+        n_paths = 0
+        for start in lib.cfg_nodes_for(cfg, pc):
+            paths, truncated = cfg.enumerate_paths(start, limit=10000)
+            if truncated:
+                r.undecided('raw_parse: paths', 'more than 10000 paths')
+            for path in paths:
+                n_paths += 1
+                if not any(n in through for n in path[1:]):
+                    r.violation('raw_parse: path %d' % n_paths, 'path %s reaches an exit without reset_storage'
+                                % ' -> '.join(repr(n) for n in path[:6]), lib.loc(rp, pc))
+        r.ok('raw_parse: enumerated paths', '%d paths, all pass reset_storage' % n_paths, rp.loc)
+        r.ok('raw_parse: agreement with D2', 'path enumeration and reachability query agree', rp.loc)
+    r2 = ctx.rule('T.ABANDON', 'strings whose function/bracket attempt is abandoned after recording are rejected as a whole', floor=6)
+    with r2:
+        g = G.extract(idx)
+        for s_ in ['f(x+)', 'f(x,)', 'f(x)(y)', '(x+)', '[x,]', 'f(g(x)+)', '2x(y+)', 'x^(y*)']:
+            got = g.match(g.root, s_, 0) is not None
+            r2.check(not got, 'probe %r' % s_, 'rejected: the names recorded in the abandoned attempt are discarded by D2',
+                     'the grammar accepts %r although a sub-parse that recorded names was abandoned' % s_,
+                     '%s:%d' % (g.module.relpath, g.fi.node.lineno))
 
 
 # ------------------------------------------------------------------------ self-test
